@@ -15,6 +15,22 @@ Line-protocol driver for the node-recovery model (C07).
   gc <k> | crash
   recover                                           (model events recover + rewind: NewLocalReplicator does both)
 
+Grid mode (several shards x family hours x leaders; Model/C07Grid.lean), entered by `grid`, left by `reset` / `lanes`:
+  grid <s>.<f>.<l> ...                              (the node's log partitions in recovery-walk order)
+  %<s>.<f>.<l> <lane op>                            (an op of that partition: append / appendbad / apply / begin .. commit / gc / wgc)
+  fam <s> <f> freeze|dcommit|ack|flush|close        (steps of dataFamily.Flush; flush = all three; close = dataFamily.Close)
+  shard <s> findex|iprep|iflush                     (shard.FlushIndex)
+  fmeta | mprep | mflushm | mflusht                 (database.FlushMeta)
+  round <s>:<f>,<f> <s>:<f> ...                     (one dataFlushChecker.doFlush over these shards / families)
+  wgc <f> ...                                       (one WAL garbage-collect tick; the family hours past their write window)
+  shutdown                                          (engine.Close over all shards and families)
+  famcrash <s> <f> <n> | closecrash <s> <f> <n> | shutdowncrash all | shutdowncrash <s> <f> <n>
+                                                    (the process dies after n steps of that family's Flush / Close,
+                                                     resp. inside the shutdown at that family's Close; answer `down`)
+  crash | recover | recoverp | walkcrash <n> <0|1>  (restart = the whole recovery walk; walkcrash = the process dies inside it)
+Answers: `<s>.<f>.<l>{positions}` per partition; `recover` appends files / unres per partition, the database
+dictionaries and the index per shard.
+
 Every answer is the positions line `a=<appended> c=<consumed> k=<groupAck> q=<seq|-> s=<stored|->`;
 `crash` answers `down`; `recover` appends the durable observation:
   files=<seq:count,...>   rows per log entry in the durable data files
@@ -25,6 +41,7 @@ The code shape (`PrepareFlush` condition) is the one regenerated from /repo (Gen
 -/
 import LinVerif.Util.Proto
 import LinVerif.Model.NodeRecovery
+import LinVerif.Model.C07Grid
 import LinVerif.Generated.C07
 
 namespace LinVerif.Driver.C07
@@ -171,6 +188,142 @@ def stepLine (n : Node) (ws : List String) : Node × String :=
     | none, none => (n, "bad-op")
   | _ => (n, "bad-op")
 
-def main (_args : List String) : IO Unit := Proto.runLoop (Node.init [1]) stepLine
+/-! ### grid mode -/
+
+def showKey (k : PKey) : String := s!"{k.shard}.{k.family}.{k.leader}"
+
+def parseKey (w : String) : Option PKey :=
+  match (w.splitOn ".").map String.toNat? with
+  | [some s, some f, some l] => some ⟨s, f, l⟩
+  | _ => none
+
+def showGrid (g : Grid) : String :=
+  " ".intercalate (g.map (fun p => showKey p.1 ++ "{" ++ showPos p.2 ++ "}"))
+
+def showGridFiles (g : Grid) : String :=
+  " ".intercalate (g.map (fun p => s!"files{showKey p.1}=" ++ showFiles p.2))
+
+/-- files and unresolved rows per partition, the database-level dictionaries from the first lane, the
+index per shard from the first lane of the shard (the lanes hold identical copies) -/
+def showGridDurable (g : Grid) : String :=
+  match g with
+  | [] => ""
+  | (_, st0) :: _ =>
+    let unres := fun (st : St) => showNats (((fileRows st).filter (fun r => !rowResolves st r)).map (fun r => r.seq.toNat))
+    let names := st0.metric.dur
+    let tagv := st0.tagv.dur.filter (fun p => st0.metric.dur.contains p.1)
+    let perShard := g.shards.map (fun s =>
+      match g.find? (fun p => p.1.shard == s) with
+      | some (_, st) =>
+        let idx := st.index.dur.filter (fun p => st.metric.dur.contains p.1 && st.tagv.dur.contains p)
+        let iunres := st.index.dur.filter (fun p => !idxResolves st p)
+        s!"idx{s}={showPairs idx} iunres{s}={showPairs iunres}"
+      | none => "")
+    showGridFiles g ++ " " ++ " ".intercalate (g.map (fun p => s!"unres{showKey p.1}=" ++ unres p.2)) ++
+      s!" names={showNats names} tagv={showPairs tagv} " ++ " ".intercalate perShard
+
+def parseReq (ws : List String) : Option (List (Nat × List Nat)) :=
+  ws.mapM (fun w =>
+    match w.splitOn ":" with
+    | [s, fs] =>
+      match s.toNat?, (fs.splitOn ",").mapM String.toNat? with
+      | some s, some fs => some (s, fs)
+      | _, _ => none
+    | _ => none)
+
+def gridLine (g : Grid) (ws : List String) : Option (Grid × String) :=
+  let pos := fun (g' : Grid) => some (g', showGrid g')
+  match ws with
+  | ["crash"] => some (runGrid cfg g [.crash], "down")
+  | ["walkcrash", n, mid] =>
+    match n.toNat?, mid with
+    | some n, "0" => some (runGrid cfg g [.walkCrash n false], "down")
+    | some n, "1" => some (runGrid cfg g [.walkCrash n true], "down")
+    | _, _ => none
+  | ["recover"] => let g' := runGrid cfg g [.restart]; some (g', showGrid g' ++ " " ++ showGridDurable g')
+  | ["recoverp"] => let g' := runGrid cfg g [.restart]; some (g', showGrid g' ++ " " ++ showGridFiles g')
+  | ["shutdown"] => pos (runGrid cfg g (shutdownGrid g))
+  | ["shutdowncrash", "all"] => some (runGrid cfg g (shutdownGrid g ++ [.crash]), "down")
+  | ["shutdowncrash", s, f, n] =>   -- the process dies inside the shutdown: after `n` steps of dataFamily.Close of (s, f)
+    match s.toNat?, f.toNat?, n.toNat? with
+    | some s, some f, some n =>
+      some (runGrid cfg g (shutdownUpTo g s f ++ (famClose s f).take n ++ [.crash]), "down")
+    | _, _, _ => none
+  | ["famcrash", s, f, n] =>        -- ... inside dataFamily.Flush of (s, f), after `n` of freeze / dcommit / ack
+    match s.toNat?, f.toNat?, n.toNat? with
+    | some s, some f, some n => some (runGrid cfg g ((famFlush s f).take n ++ [.crash]), "down")
+    | _, _, _ => none
+  | ["closecrash", s, f, n] =>      -- ... inside (n < 5) or after dataFamily.Close of (s, f)
+    match s.toNat?, f.toNat?, n.toNat? with
+    | some s, some f, some n => some (runGrid cfg g ((famClose s f).take n ++ [.crash]), "down")
+    | _, _, _ => none
+  | "round" :: req =>
+    match parseReq req with
+    | some r => pos (runGrid cfg g (doFlushRound r))
+    | none => none
+  | "wgc" :: fs =>
+    match fs.mapM String.toNat? with
+    | some fs => pos (runGrid cfg g (walGcTick g fs))
+    | none => none
+  | ["fam", s, f, op] =>
+    match s.toNat?, f.toNat? with
+    | some s, some f =>
+      match op with
+      | "freeze" => pos (runGrid cfg g [.fam s f .freeze])
+      | "dcommit" => pos (runGrid cfg g [.fam s f .dataCommit])
+      | "ack" => pos (runGrid cfg g [.fam s f .ackCallback])
+      | "flush" => pos (runGrid cfg g (famFlush s f))
+      | "close" => pos (runGrid cfg g (famClose s f))
+      | _ => none
+    | _, _ => none
+  | ["shard", s, op] =>
+    match s.toNat? with
+    | some s =>
+      match op with
+      | "findex" => pos (runGrid cfg g [.shard s .indexPrepare, .shard s .indexFlush])
+      | "iprep" => pos (runGrid cfg g [.shard s .indexPrepare])
+      | "iflush" => pos (runGrid cfg g [.shard s .indexFlush])
+      | _ => none
+    | none => none
+  | ["fmeta"] => pos (runGrid cfg g [.db .metaPrepare, .db .metaFlushMetric, .db .metaFlushTagv])
+  | ["mprep"] => pos (runGrid cfg g [.db .metaPrepare])
+  | ["mflushm"] => pos (runGrid cfg g [.db .metaFlushMetric])
+  | ["mflusht"] => pos (runGrid cfg g [.db .metaFlushTagv])
+  | w :: rest =>
+    if w.startsWith "%" then
+      match parseKey (w.drop 1).toString, laneOp rest with
+      | some k, some evs =>
+        if (g.lane? k).isSome then pos (runGrid cfg g (evs.map (GEv.lane k))) else none
+      | _, _ => none
+    else none
+  | _ => none
+
+/-- driver state: the single-family node, or (grid mode) the several-shards node -/
+structure DS where
+  node : Node
+  grid : Option Grid
+
+def stepAll (d : DS) (ws : List String) : DS × String :=
+  match ws with
+  | "grid" :: ks =>
+    match ks.mapM parseKey with
+    | some keys => if keys.isEmpty then (d, "bad-op") else
+        let g := Grid.init keys; ({ d with grid := some g }, showGrid g)
+    | none => (d, "bad-op")
+  | _ =>
+    let leave := match ws with
+      | ["reset"] => true
+      | "lanes" :: _ => true
+      | _ => false
+    match d.grid, leave with
+    | some g, false =>
+      match gridLine g ws with
+      | some (g', out) => ({ d with grid := some g' }, out)
+      | none => (d, "bad-op")
+    | _, _ =>
+      let (n', out) := stepLine d.node ws
+      ({ node := n', grid := none }, out)
+
+def main (_args : List String) : IO Unit := Proto.runLoop (⟨Node.init [1], none⟩ : DS) stepAll
 
 end LinVerif.Driver.C07
